@@ -321,6 +321,10 @@ func (b *Balloon) QueryDigestMembershipConsistency(keyDigest hashing.Digest, ver
 	proof.QueryVersion = version
 	proof.CurrentVersion = b.version - 1
 
+	if len(keyDigest) != int(proof.Hasher.Len()/8) {
+		return nil, fmt.Errorf("invalid key digest: its length is %d bytes instead of %d", len(keyDigest), proof.Hasher.Len()/8)
+	}
+
 	if version > proof.CurrentVersion {
 		version = proof.CurrentVersion
 	}
@@ -379,6 +383,10 @@ func (b *Balloon) QueryDigestMembership(keyDigest hashing.Digest) (*MembershipPr
 	proof.KeyDigest = keyDigest
 	proof.QueryVersion = b.version - 1
 	proof.CurrentVersion = proof.QueryVersion
+
+	if len(keyDigest) != int(proof.Hasher.Len()/8) {
+		return nil, fmt.Errorf("invalid key digest: its length is %d bytes instead of %d", len(keyDigest), proof.Hasher.Len()/8)
+	}
 
 	proof.HyperProof, err = b.hyperTree.QueryMembership(keyDigest)
 	if err != nil {
